@@ -417,6 +417,34 @@ def opEffects (req : Json) : Except String Json := do
   let clean := exec (fun _ => false) p s0
   pure (Json.mkObj [("ops", .num clean.1.counter), ("results", .arr results.toArray)])
 
+def opStopCrash (req : Json) : Except String Json := do
+  let n := ((fieldD req "n" (.num 0)).getNat?).toOption.getD 0
+  let p : Prelim := { materials := [], signer := lit "k", intact := true }
+  let link : FinalLink := { materials := [], products := [], signer := lit "k" }
+  let d0 : WDir := { prelim := .complete p, final := .absent }
+  let opName : StopOp → String
+    | .readPrelim => "readPrelim" | .readProduct => "readProduct" | .createFinal => "createFinal"
+    | .writeFinal => "writeFinal" | .removePrelim => "removePrelim"
+  let states := (List.range ((stopOps n).length + 1)).map (fun k =>
+    let d := crashAfter link d0 n k
+    Json.mkObj [("k", .num k),
+      ("prelim", .str (match d.prelim with | .complete _ => "complete" | .absent => "absent" | .partialWrite => "partial")),
+      ("final", .str (match d.final with | .complete _ => "complete" | .absent => "absent" | .partialWrite => "partial"))])
+  pure (Json.mkObj [("ops", .arr ((stopOps n).map (fun o => Json.str (opName o))).toArray), ("states", .arr states.toArray)])
+
+def opCliStatus (req : Json) : Except String Json := do
+  let tool ← match (← field req "tool") with
+    | .str "verify" => pure Tool.verify | .str "sign" => pure Tool.sign | .str "sign_verify" => pure Tool.signVerify
+    | .str "run" => pure Tool.run | .str "record_start" => pure Tool.recordStart | .str "record_stop" => pure Tool.recordStop
+    | .str "mock" => pure Tool.mock | .str "match_products" => pure Tool.matchProducts
+    | _ => throw "bad tool"
+  let outcome ← match (← field req "outcome") with
+    | .str "usage" => pure CliOutcome.usageError | .str "success" => pure CliOutcome.success
+    | .str "load" => pure CliOutcome.loadFailure | .str "sig" => pure CliOutcome.sigCheckFailed
+    | .str "fail" => pure CliOutcome.libFailure | .str "differ" => pure CliOutcome.differences
+    | _ => throw "bad outcome"
+  pure (okJson (.num (exitStatus tool outcome)))
+
 def dispatch (op : String) (req : Json) : Except String Json :=
   match op with
   | "ping" => pure (okJson (.str "pong"))
@@ -435,6 +463,8 @@ def dispatch (op : String) (req : Json) : Except String Json :=
   | "match_products" => opMatchProducts req
   | "streams" => opStreams req
   | "effects" => opEffects req
+  | "stop_crash" => opStopCrash req
+  | "cli_status" => opCliStatus req
   | _ => throw s!"unknown op {op}"
 
 def handle (line : String) : String :=
